@@ -412,6 +412,57 @@ pub fn run(o: &Opts) -> i32 {
             rep.violations.push(serde_json::json!({"class": v.class, "scenario": scenario, "replay": path, "doc": doc}));
         }
     }
+    // ---- D4 sweep: values and types (exhaustive for small domains)
+    {
+        let small = crate::sweep::small_types();
+        let random_items: usize = if thorough { 200_000 } else { 6_000 };
+        let total_items = small.len() + 65 * 16 + random_items;
+        let mut st = crate::sweep::SweepStats::default();
+        let shard = o.shard;
+        let shards = o.shards;
+        let seed = o.seed;
+        let quick_stride = if thorough { 1 } else { 3 };
+        let (viols, items): (Vec<(usize, crate::sweep::SweepViol)>, u64) = {
+            let st = &mut st;
+            let small = &small;
+            seam::epoch(mix(o.seed ^ tag("sweep") ^ o.shard as u64) | 1, move || {
+                let mut v = Vec::new();
+                let mut n = 0u64;
+                for i in 0..total_items {
+                    if i % shards != shard {
+                        continue;
+                    }
+                    // quick: every third small type (a different third for each seed)
+                    if i < small.len() && (i / shards + seed as usize) % quick_stride != 0 {
+                        continue;
+                    }
+                    n += 1;
+                    if let Err(e) = crate::sweep::item(i, seed, small, st) {
+                        if v.len() < 3 {
+                            v.push((i, e));
+                        }
+                    }
+                }
+                (v, n)
+            })
+        };
+        rep.evaluations += items;
+        rep.count("sweep_items", items);
+        rep.count("sweep_types", st.types);
+        rep.count("sweep_types_enumerated_exhaustively", st.types_exhaustive);
+        rep.count("sweep_values", st.values);
+        rep.count("sweep_values_from_exhaustive_enumeration", st.values_exhaustive);
+        rep.event(&format!("C15\tsweep shard {}\titems={items}\ttypes={}\tvalues={}\tviolations={}", o.shard, st.types, st.values, viols.len()));
+        for (i, v) in viols {
+            let path = o.verif.join("replays").join(format!("C15-sweep-{}-{}.json", o.seed, i));
+            let scenario = format!("{} sweep type={}", v.class, v.ty);
+            let doc = serde_json::json!({
+                "property": "C15", "leg": "C15", "kind": "sweep", "class": v.class, "detail": v.detail, "scenario": scenario,
+                "verif_seed": o.seed, "item": i, "type": v.ty, "value": v.value,
+            });
+            rep.violations.push(serde_json::json!({"class": v.class, "scenario": scenario, "replay": path, "doc": doc}));
+        }
+    }
     rep.count("prints", total.prints);
     rep.count("routes_unavailable_not_judged", total.routes_unavailable);
     rep.count("duplicate_texts_checked", total.dup_checks);
